@@ -108,6 +108,21 @@ def _run(ctx):
     gt = F.fn("Document::get_toc")
     conds = [gt.oname(gt.term(bi)["d"], 5) for bi in range(gt.n) if gt.term(bi)["k"] == "switch"]
     bomr = any(re.search(r"Eq\(.*index\(&?\w+,0\),254\)", c) for c in conds) and any(re.search(r"Eq\(.*index\(&?\w+,1\),255\)", c) for c in conds)
+    if not bomr:
+        # a slice pattern `[0xfe, 0xff, ..]`: switches on element 0 / element 1 with an arm for 254 / 255
+        el = {0: set(), 1: set()}
+        for bi in range(gt.n):
+            t_ = gt.term(bi)
+            if t_["k"] != "switch" or t_["dty"] != "u8":
+                continue
+            p_ = op_place(t_["d"])
+            if p_ is None:
+                continue
+            p_ = gt.root_place(p_, through_names=True)
+            ix = [e for e in p_["p"] if isinstance(e, dict) and ("cidx" in e)]
+            if len(ix) == 1 and not ix[0].get("end") and ix[0]["cidx"] in el:
+                el[ix[0]["cidx"]] |= {int(v) for v, _x in t_["tg"]}
+        bomr = 254 in el[0] and 255 in el[1]
     be = False
     for cl in F.closures_of(gt.path):
         for bi, si, s in cl.stmts():
